@@ -416,7 +416,8 @@ impl<'a, W: Write> Writer<'a, W> {
             + self.append_raw(&stream_len.try_into()?, &Schema::Long)?
             + self
                 .writer
-                .write(self.buffer.as_ref())
+                .write_all(self.buffer.as_ref())
+                .map(|()| self.buffer.len())
                 .map_err(Details::WriteBytes)?
             + self.append_marker()?;
 
@@ -473,7 +474,8 @@ impl<'a, W: Write> Writer<'a, W> {
         // using .writer.write directly to avoid mutable borrow of self
         // with ref borrowing of self.marker
         self.writer
-            .write(&self.marker)
+            .write_all(&self.marker)
+            .map(|()| self.marker.len())
             .map_err(|e| Details::WriteMarker(e).into())
     }
 
@@ -485,7 +487,8 @@ impl<'a, W: Write> Writer<'a, W> {
     /// Append pure bytes to the payload.
     fn append_bytes(&mut self, bytes: &[u8]) -> AvroResult<usize> {
         self.writer
-            .write(bytes)
+            .write_all(bytes)
+            .map(|()| bytes.len())
             .map_err(|e| Details::WriteBytes(e).into())
     }
 
